@@ -57,3 +57,4 @@ Print Assumptions C02_nothing_invented.
 Print Assumptions C02_transport_independent.
 Print Assumptions C02_header_only_packet_transparent.
 Print Assumptions C02_header_only_packet_state.
+Print Assumptions C02_transport_partitions_agree.
